@@ -882,3 +882,58 @@ func sharedSentinelProbe(sum *Summary) {
 		sum.addViolation("C09", Mismatch{Case: "sharedSentinelProbe: Struct{a: Preprocess(deny, String()), b: Preprocess(deny, Int()), c: Preprocess(deny, Time())} where deny returns ONE shared *ZogIssue{Code: denied}", Impl: strings.Join(all, "\n"), What: "the issues of one fixed call differ from run to run (48 runs)"})
 	}
 }
+
+// ctxLeakProbe (C05, C02): what one child of a struct does must not reach the siblings visited after it through the
+// child context they share. Two fixed scenarios (each executed 60 times on a fresh schema, so that every field
+// visit order occurs): a catching field next to a NESTED STRUCT with a PostTransform, in Validate; a Preprocess
+// field whose function fails next to a Ptr field, in Parse.
+func ctxLeakProbe(sum *Summary) {
+	type inner struct{ Name string }
+	type recA struct {
+		A     string
+		Inner inner
+	}
+	type recB struct {
+		P string
+		Q *string
+	}
+	for k := 0; k < 60; k++ {
+		sa := z.Struct(z.Schema{
+			"a": z.String().Min(5).Catch("caught"),
+			"inner": z.Struct(z.Schema{"name": z.String()}).PostTransform(func(p any, ctx z.Ctx) error {
+				v := p.(*inner)
+				v.Name = strings.ToUpper(v.Name)
+				return nil
+			}),
+		})
+		d := recA{A: "ab", Inner: inner{Name: "bob"}}
+		errs := sa.Validate(&d)
+		if got := fmt.Sprintf("issues=%d a=%s inner=%s", len(errs), d.A, d.Inner.Name); got != "issues=0 a=caught inner=BOB" {
+			sum.addViolation("C05", Mismatch{Case: "ctxLeakProbe: Validate of Struct{a: String().Min(5).Catch(caught), inner: Struct{name}.PostTransform(upper)} on {ab, {bob}}", Impl: got, Model: "issues=0 a=caught inner=BOB",
+				What: "a caught failure of one field changed what a sibling node does (the nested struct's PostTransform did not run)"})
+			break
+		}
+		sb := z.Struct(z.Schema{
+			"p": z.Preprocess(func(v string, ctx z.Ctx) (string, error) { return v, errors.New("rejected") }, z.String()),
+			"q": z.Ptr(z.String().Min(5)),
+		})
+		var b recB
+		eb := sb.Parse(map[string]any{"p": "x", "q": "ab"}, &b)
+		codes := func(key string) string {
+			var cs []string
+			for _, e := range eb[key] {
+				cs = append(cs, e.Code)
+			}
+			return strings.Join(cs, ",")
+		}
+		got := fmt.Sprintf("p=[%s]x%d q=[%s] Q=%v", codes("p"), len(eb["p"]), codes("q"), b.Q != nil && *b.Q == "ab")
+		if got != "p=[]x1 q=[min] Q=true" {
+			for _, pid := range []string{"C02", "C05"} {
+				sum.addViolation(pid, Mismatch{Case: "ctxLeakProbe: Parse of Struct{p: Preprocess(fails, String()), q: Ptr(String().Min(5))} on {p: x, q: ab}", Impl: got, Model: "p=[]x1 q=[min] Q=true",
+					What: "a failing Preprocess field changed what a sibling node does (the pointer field lost its value or its issue)"})
+			}
+			break
+		}
+		sum.Evaluations += 2
+	}
+}
